@@ -136,12 +136,12 @@ func (sr *SR) parseWKTSpheroid(secName []string, secData string) error {
 	if len(sr.Ellps) >= 13 && strings.ToLower(sr.Ellps[0:13]) == "international" {
 		sr.Ellps = "intl"
 	}
-	a, err := strconv.ParseFloat(d[1], 64)
+	a, err := strconv.ParseFloat(strings.TrimSpace(d[1]), 64)
 	if err != nil {
 		return fmt.Errorf("in proj.parseWKTSpheroid a: '%v'", err)
 	}
 	sr.A = a
-	sr.Rf, err = strconv.ParseFloat(d[2], 64)
+	sr.Rf, err = strconv.ParseFloat(strings.TrimSpace(d[2]), 64)
 	if err != nil {
 		return fmt.Errorf("in proj.parseWKTSpheroid rf: '%v'", err)
 	}
